@@ -400,28 +400,32 @@ Interval<To_Boundary, To_Info>::difference_assign(const From1& x,
                                                   const From2& y) {
   PPL_ASSERT(f_OK(x));
   PPL_ASSERT(f_OK(y));
-  PPL_DIRTY_TEMP(To_Info, to_info);
-  to_info.clear();
-  if (lt(UPPER, f_upper(x), f_info(x), LOWER, f_lower(y), f_info(y))
+  if (check_empty_arg(x)) {
+    return assign(EMPTY);
+  }
+  if (check_empty_arg(y)
+      || lt(UPPER, f_upper(x), f_info(x), LOWER, f_lower(y), f_info(y))
       || gt(LOWER, f_lower(x), f_info(x), UPPER, f_upper(y), f_info(y))) {
     return assign(x);
   }
   bool nl = ge(LOWER, f_lower(x), f_info(x), LOWER, f_lower(y), f_info(y));
   bool nu = le(UPPER, f_upper(x), f_info(x), UPPER, f_upper(y), f_info(y));
-  Result rl = V_EQ;
-  Result ru = V_EQ;
-  if (nl) {
-    if (nu) {
-      return assign(EMPTY);
-    }
-    else {
-      rl = complement(LOWER, lower(), info(), UPPER, f_upper(y), f_info(y));
-      ru = Boundary_NS::assign(UPPER, upper(), info(), UPPER, f_upper(x), f_info(x));
-    }
+  if (nl == nu) {
+    // Either `x' is contained in `y' or `y' is strictly inside `x'.
+    return nl ? assign(EMPTY) : assign(x);
   }
-  else if (nu) {
-    ru = complement(UPPER, upper(), info(), LOWER, f_lower(y), f_info(y));
-    rl = Boundary_NS::assign(LOWER, lower(), info(),
+  PPL_DIRTY_TEMP(To_Info, to_info);
+  to_info.clear();
+  Result rl;
+  Result ru;
+  if (nl) {
+    rl = complement(LOWER, lower(), to_info, UPPER, f_upper(y), f_info(y));
+    ru = Boundary_NS::assign(UPPER, upper(), to_info,
+                             UPPER, f_upper(x), f_info(x));
+  }
+  else {
+    ru = complement(UPPER, upper(), to_info, LOWER, f_lower(y), f_info(y));
+    rl = Boundary_NS::assign(LOWER, lower(), to_info,
                              LOWER, f_lower(x), f_info(x));
   }
   assign_or_swap(info(), to_info);
